@@ -5,6 +5,7 @@ Driver for C06.
 
 Fail case:
   <id> A <r|s> <path> <stText: n (<nat> <str>)…> <opts: n opt…> <accept: 0 | 1 str> <answers: n str…>
+       <ParseFloat table: n (<raw q value> <0 | 1 millionths>)…>
        <preCT: 0 | 1 str> <abortFirst> <ctxDone> <pos> <call>
        => R <status> <ctype> <bodies: n json…> <aborted> <entered: n nat…> <"handler error" log records: n (<error text> <status>)…> | P
 MarshalJSON case:
@@ -103,6 +104,8 @@ structure ACase where
   opts : List Opt
   accept : Option Bytes
   answers : List Bytes
+  /-- `strconv.ParseFloat` on the raw q values of the header (parameter of C19's model of `Accepts`) -/
+  pfTab : List (Bytes × Option Nat)
   preCT : Option Bytes
   abortFirst : Bool
   ctxDone : Bool
@@ -120,12 +123,13 @@ def pACase (fuel : Nat) : P ACase := do
   let opts ← list pOpt
   let accept ← opt str
   let answers ← list str
+  let pfTab ← list (do let raw ← str; let v ← opt nat; pure (raw, v))
   let pre ← opt str
   let ab ← bool
   let cd ← bool
   let pos ← nat
   let call ← pCall fuel
-  pure { wire := w, path := path, stTab := tab, opts := opts, accept := accept, answers := answers, preCT := pre, abortFirst := ab, ctxDone := cd,
+  pure { wire := w, path := path, stTab := tab, opts := opts, accept := accept, answers := answers, pfTab := pfTab, preCT := pre, abortFirst := ab, ctxDone := cd,
          pos := pos, call := call }
 
 def pResp (fuel : Nat) : P (Option (Resp × List LogRec)) := do
@@ -169,10 +173,23 @@ def canonResp (r : Resp) : Resp := { r with bodies := r.bodies.map Json.canon }
 
 /-- the model's possible responses: one per answer `c.Accepts` can give (the order of the offers is
     the iteration order of a Go map) -/
+def pfOf (tab : List (Bytes × Option Nat)) : Rivaas.Accept.PF := fun raw =>
+  match tab.find? fun kv => kv.1 == raw with
+  | some kv => kv.2
+  | none => none
+
+/-- what the modelled `c.Accepts` answers, for every order of the configured media types (the order of the offers
+    is the iteration order of a Go map) -/
+def modelAnswers (c : ACase) : List Bytes :=
+  ((perms ((mkCfg c.opts).formatters.map (·.1))).map (acceptsOf (pfOf c.pfTab) c.accept)).eraseDups
+
+def sameSet (a b : List Bytes) : Bool := a.all b.contains && b.all a.contains
+
+/-- the model's possible responses: one per answer the modelled `c.Accepts` can give -/
 def possible (c : ACase) : List (Resp × List LogRec) :=
   let env : Env := { path := c.path, stText := stTextOf c.stTab }
   let cfg := mkCfg c.opts
-  c.answers.map fun ans => (canonResp (failH c.preCT c.abortFirst c.ctxDone env cfg ans c.wire c.pos c.call),
+  (modelAnswers c).map fun ans => (canonResp (failH c.preCT c.abortFirst c.ctxDone env cfg ans c.wire c.pos c.call),
     [failLog env cfg ans c.call])
 
 def stepA (id : String) (inp obs : List String) : String :=
@@ -180,7 +197,9 @@ def stepA (id : String) (inp obs : List String) : String :=
   | some c, some o =>
     let ms := possible c
     let mi := match o with
-      | some (r, logs) => ms.any fun m => respEq r m.1 && logs == m.2
+      -- the response is one the model can give, and the real `Accepts` answers (asked for every order of the
+      -- offers) are exactly the ones C19's model of it gives
+      | some (r, logs) => (ms.any fun m => respEq r m.1 && logs == m.2) && sameSet c.answers (modelAnswers c)
       | none => false
     let s := match o with
       | some (r, _) => specOK c.opts c.accept c.pos c.call r
